@@ -79,6 +79,23 @@ pub fn handle(op: &str, cmd: &Value) -> Value {
             json!({"all_ok": ok_empty && ok_ident && ok_ns && ok_disp, "is_empty": ok_empty, "ident": ok_ident, "namespace": ok_ns, "display": ok_disp})
         }
         "table_step" => table_step(cmd),
+        "builder_history" => {
+            // pattern[i] = index (in the list model) of the value registered at step i
+            let pat: Vec<u64> = cmd["pattern"].as_array().unwrap().iter().map(|x| x.as_u64().unwrap()).collect();
+            let mut b = PortableRegistryBuilder::new();
+            let mut ok = true; let mut n = 0u64;
+            for p in &pat {
+                ok &= b.next_type_id() as u64 == n;
+                let id = b.register_type(ty_of(*p)) as u64;
+                ok &= id == *p;
+                if *p == n { n += 1; }
+            }
+            for i in 0..n { ok &= b.get(i as u32).map(ty_index) == Some(i); }
+            ok &= b.get(n as u32).is_none();
+            let r = b.finish();
+            ok &= r.types.len() as u64 == n && r.types.iter().enumerate().all(|(i, t)| t.id as usize == i && ty_index(&t.ty) == i as u64);
+            json!({"ok": ok})
+        }
         "corpus_bytes_nodocs" => {
             use scale::Encode;
             use std::hash::{Hash, Hasher};
@@ -184,6 +201,7 @@ pub fn handle(op: &str, cmd: &Value) -> Value {
         "builder_laws" => crate::builders::battery(),
         "registry_laws" => crate::laws::battery(cmd["seed"].as_u64().unwrap_or(0)),
         "metatype_laws" => crate::meta::laws(),
+        "identity_probe" => crate::meta::identity_probe(),
         "retain" => {
             let keep: Vec<bool> = cmd["keep"].as_array().unwrap().iter().map(|b| b.as_bool().unwrap()).collect();
             crate::reg::retain_oracle(&cmd["types"], &keep)
